@@ -836,6 +836,14 @@ def uf_interpretation(name):
     return f
 
 
+def _is_declared_uf(name):
+    """uninterpreted functions declared with partial derivatives (and those partials): independent symbols for the provers, so
+    independent interpretations are legitimate"""
+    if name in UF_PARTIALS:
+        return True
+    return any(name in v for v in UF_PARTIALS.values())
+
+
 def eval_float(roots, env, funs=None, interpret_uf=False):
     """evaluate terms at a float point; env: {var name: float}.  Returns list.
     sqrt of a (slightly) negative number gives nan.  interpret_uf: functions named uf_* get uf_interpretation(name)."""
@@ -884,7 +892,7 @@ def eval_float(roots, env, funs=None, interpret_uf=False):
                     v = not a[0]
                 elif op == "f":
                     fname = a[0]
-                    if fname not in ff and interpret_uf and fname.startswith("uf_"):
+                    if fname not in ff and interpret_uf and (fname.startswith("uf_") or _is_declared_uf(fname)):
                         ff[fname] = uf_interpretation(fname)
                     v = ff[fname](*a[1:])
                 else:
